@@ -241,5 +241,6 @@ def check(tr):
 
 def eqv(a, b):
     if isinstance(a, (int, float)) and isinstance(b, (int, float)) and not isinstance(a, bool) and not isinstance(b, bool):
-        return close(float(a), float(b), 1e-7)
+        a, b = float(a), float(b)
+        return a == b or abs(a - b) <= 1e-7 * max(abs(a), abs(b))  # relative: hyperparameter values may be tiny
     return a == b
